@@ -588,6 +588,7 @@ type c11Case struct {
 	valid bool
 	// real code
 	accepted   bool
+	remaining  int // tokens left when the real parser gave up (the first one is the offending token)
 	rejectKind string
 	errText    string
 	realTokens []string
@@ -800,7 +801,7 @@ func (j *c11Judge) judgeAll(cases []*c11Case) error {
 }
 
 func c11Real(c *c11Case) {
-	c.accepted, c.rejectKind, c.errText, _ = pkglint.VerifParseShell(c.line)
+	c.accepted, c.rejectKind, c.errText, _, c.remaining = pkglint.VerifParseShell2(c.line)
 	c.realTokens, c.realRest, c.realKinds, c.realPanic = pkglint.VerifShellSplit(c.line)
 	if c.realPanic == "" {
 		c.realTypes, c.realPanic = pkglint.VerifShellLexTokens(c.realTokens)
@@ -877,9 +878,22 @@ func c11RejectKey(c *c11Case) string {
 			text = append(text, t)
 		}
 	}
+	// the terminal at which the real parser gave up: the last one Lex returned for
+	// the first of the remaining tokens
 	errPos := len(types)
-	if strings.HasPrefix(c.lr, "R") {
-		errPos, _ = strconv.Atoi(c.lr[1:])
+	if c.remaining > 0 && c.remaining <= len(c.realTokens) {
+		errPos = 0
+		for _, t := range c.realTokens[:len(c.realTokens)-c.remaining] {
+			errPos++
+			if c11ReIONumber.MatchString(t) {
+				errPos++
+			}
+		}
+		// an io-number token yields two terminals; the parser may have choked on the second
+		if c11ReIONumber.MatchString(c.realTokens[len(c.realTokens)-c.remaining]) && errPos+1 < len(types) &&
+			strings.HasPrefix(c.lr, "R") && c.lr == "R"+strconv.Itoa(errPos+1) {
+			errPos++
+		}
 	}
 	name := func(i int) string {
 		switch {
@@ -1381,6 +1395,88 @@ func firstN(s string, n int) string {
 	return s
 }
 
+// ---------- corpus: the witnesses of Props/C11.v and the hand-reproduced findings ----------
+
+func c11Corpus() []string {
+	w := func(s string) string { return hx(s) }
+	echo := "CL Q1 A1 0 P1 CS 0 1 W " + w("echo") + " S"
+	caseA := "KC " + w("$$x") + " IC 0 " + w("a") + " 0 BS CL Q1 A1 0 P1 CS 0 2 W " + w("echo") + " W " + w("a") + " N IN"
+	return []string{
+		// for i ; do echo ; done
+		"CL Q1 A1 0 P1 CC KF " + w("i") + " FS " + echo + " 0 N",
+		// { case x in esac }
+		"CL Q1 A1 0 P1 CC KB CL Q1 A1 0 P1 CC KC " + w("x") + " IN 0 N 0 N",
+		// case x in esac | { echo ; }
+		"CL Q1 A1 0 PP P1 CC KC " + w("x") + " IN 0 CC KB " + echo + " 0 N",
+		// case x in a ) echo ;; esac ; ( { echo ; } )
+		"CL QS Q1 A1 0 P1 CC KC " + w("x") + " IC 0 " + w("a") + " 0 BS CL Q1 A1 0 P1 CS 0 1 W " + w("echo") + " N IN 0 S A1 0 P1 CC KS CL Q1 A1 0 P1 CC KB " + echo + " 0 N 0 N",
+		// > out echo esac
+		"CL Q1 A1 0 P1 CS 0 3 R - gt " + w("out") + " W " + w("echo") + " W " + w("esac") + " N",
+		// > out in x      2>& 1 do x
+		"CL Q1 A1 0 P1 CS 0 3 R - gt " + w("out") + " W " + w("in") + " W " + w("x") + " N",
+		"CL Q1 A1 0 P1 CS 0 3 R " + w("2") + " gtand " + w("1") + " W " + w("do") + " W " + w("x") + " N",
+		// VAR=x fi
+		"CL Q1 A1 0 P1 CS 1 " + w("VAR=x") + " 1 W " + w("fi") + " N",
+		// for f in a b ; do case $$x in a ) echo a ;; esac done
+		"CL Q1 A1 0 P1 CC KF " + w("f") + " FI 2 " + w("a") + " " + w("b") + " CL Q1 A1 0 P1 CC " + caseA + " 0 N 0 N",
+		// case $$x in a ) echo a ;; esac | while read line ; do echo ; done
+		"CL Q1 A1 0 PP P1 CC " + caseA + " 0 CC KW CL Q1 A1 0 P1 CS 0 2 W " + w("read") + " W " + w("line") + " S " + echo + " 0 N",
+		// case $$x in a ) echo a ;; esac ; ( if true ; then echo ; fi )
+		"CL QS Q1 A1 0 P1 CC " + caseA + " 0 S A1 0 P1 CC KS CL Q1 A1 0 P1 CC KI CL Q1 A1 0 P1 CS 0 1 W " + w("true") + " S " + echo + " EN 0 N 0 N",
+	}
+}
+
+// ---------- the extraction itself: a sample re-evaluated by coqc with vm_compute ----------
+
+func c11CoqBytes(s string) string {
+	parts := make([]string, len(s))
+	for i := 0; i < len(s); i++ {
+		parts[i] = strconv.Itoa(int(s[i]))
+	}
+	return "[" + strings.Join(parts, "; ") + "]%N"
+}
+
+func c11VmCompute(ctx *Ctx, res *Result, cases []*c11Case, rng *Rng, n int) {
+	var sb strings.Builder
+	sb.WriteString("From Coq Require Import ZArith NArith List.\nImport ListNotations.\n")
+	sb.WriteString("From PV Require Import Lib.Bytes Gen.ShellGrammar Gen.ShellTables Model.ShellLex Model.ShellLR.\n")
+	sb.WriteString("Definition lex_codes (l : list tok) : option (list Z) := match shell_lex l with Lexed ts => Some (map tok_code ts) | _ => None end.\n")
+	sb.WriteString("Definition acc (l : list tok) : bool := match shell_lex l with Lexed ts => lr_accepts ts | _ => false end.\n")
+	count := 0
+	for tries := 0; count < n && tries < 20*n && len(cases) > 0; tries++ {
+		c := cases[rng.Intn(len(cases))]
+		if c.lexState != "L" || len(c.tokens) > 40 {
+			continue
+		}
+		var toks, codes []string
+		for _, t := range c.tokens {
+			toks = append(toks, "mkTok "+c11CoqBytes(t)+" WkPlain")
+		}
+		for _, k := range c.lexed {
+			codes = append(codes, strconv.Itoa(k)+"%Z")
+		}
+		fmt.Fprintf(&sb, "Example e%d : lex_codes [%s] = Some [%s] /\\ acc [%s] = %v.\nProof. split; vm_compute; reflexivity. Qed.\n",
+			count, strings.Join(toks, "; "), strings.Join(codes, "; "), strings.Join(toks, "; "), c.lr == "A")
+		count++
+	}
+	dir := filepath.Join(ctx.Work, "vmcompute")
+	os.MkdirAll(dir, 0o755)
+	file := filepath.Join(dir, "cases.v")
+	if err := os.WriteFile(file, []byte(sb.String()), 0o644); err != nil {
+		res.Broken = err.Error()
+		return
+	}
+	cmd := exec.Command("coqc", "-Q", filepath.Join(ctx.Verif, "coq"), "PV", file)
+	cmd.Dir = dir
+	out, err := cmd.CombinedOutput()
+	res.Count("vm_compute_cross_checks", count)
+	if err != nil {
+		res.AddViolation(Violation{Key: "C11/extraction-vs-vm_compute", FoundInput: false,
+			What:   "coqc (vm_compute) disagrees with the extracted oracle on a sample: " + firstN(strings.TrimSpace(string(out)), 400),
+			Replay: map[string]any{"kind": "goyacc", "broken": "extracted OCaml model = Gallina model under vm_compute"}})
+	}
+}
+
 // ---------- the run ----------
 
 func c11Kinds(ser string) []string {
@@ -1457,7 +1553,7 @@ func c11Lap(what string) {
 }
 
 func runC11(ctx *Ctx) *Result {
-	res := &Result{Rule: "programs = ASTs of Spec/PosixSh.v printed by the extracted printer: every AST shape with <= N tokens (N=6 quick, 7 thorough) with canonical words, every shape with N+1 tokens over the reduced operator set (`;` `&&`, no `!`, no until) and those with N+2 tokens (a sample of 8000 in quick), word variants of a sample of shapes (plain, quoted, $$var, ${MAKEVAR}, reserved words in argument position, assignment-shaped arguments, io-numbers), random ASTs up to depth 3 (quick) / 4 (thorough); only programs accepted by both sh -n and bash -n count; non-trivial = valid program with at least one compound command or function definition, distinct by program text"}
+	res := &Result{Rule: "programs = ASTs of Spec/PosixSh.v printed by the extracted printer: every AST shape with <= N tokens (N=6 quick, 7 thorough) with canonical words, every shape with N+1 tokens over the reduced operator set (`;` `&&`, no `!`, no until) and those with N+2 tokens (a sample of 4000 in quick), word variants of a sample of shapes (plain, quoted, $$var, ${MAKEVAR}, reserved words in argument position, assignment-shaped arguments, io-numbers), random ASTs up to depth 3 (quick) / 4 (thorough); only programs accepted by both sh -n and bash -n count; non-trivial = valid program with at least one compound command or function definition, distinct by program text"}
 	rng := NewRng(ctx.Seed)
 	thorough := ctx.Tier == "thorough"
 
@@ -1467,7 +1563,7 @@ func runC11(ctx *Ctx) *Result {
 	}
 	c11Lap("goyacc")
 
-	maxTok, nVariants, nRandom, randDepth, tokLen, tokRand, sampleBeyond := 6, 12000, 6000, 3, 3, 30000, 8000
+	maxTok, nVariants, nRandom, randDepth, tokLen, tokRand, sampleBeyond := 6, 10000, 5000, 3, 3, 30000, 4000
 	if thorough {
 		maxTok, nVariants, nRandom, randDepth, tokLen, tokRand = 7, 150000, 120000, 4, 4, 400000
 	}
@@ -1505,6 +1601,9 @@ func runC11(ctx *Ctx) *Result {
 		beyond = append(beyond, er.clist(n)...)
 	}
 	var cases []*c11Case
+	for _, s := range c11Corpus() {
+		cases = append(cases, &c11Case{ser: s, origin: "corpus"})
+	}
 	for _, s := range shapes {
 		cases = append(cases, &c11Case{ser: c11Fill(s, nil, true), origin: "enumerated"})
 	}
@@ -1545,6 +1644,8 @@ func runC11(ctx *Ctx) *Result {
 	}
 	res.Count("judge_calls", judge.calls)
 	c11Lap("processed")
+	c11VmCompute(ctx, res, cases, rng.Fork(), 150)
+	c11Lap("vm_compute sample")
 
 	// whole runs: every valid program (quick: a bounded sample of the accepted ones, all rejected ones)
 	var wr []*c11Case
@@ -1610,6 +1711,7 @@ func runC11(ctx *Ctx) *Result {
 	}
 
 	c11Lap("whole runs")
+	c11CapUnknownRejects(ctx, res, 8)
 	// coverage floors: the branches the property names
 	for _, k := range []string{"valid_with_for-do", "valid_with_for-in", "valid_with_case", "valid_with_case-lparen", "valid_with_case-last-item-without-dsemi",
 		"valid_with_case-item-dsemi", "valid_with_if", "valid_with_elif", "valid_with_else", "valid_with_while", "valid_with_until", "valid_with_brace", "valid_with_subshell",
@@ -1632,6 +1734,32 @@ func runC11(ctx *Ctx) *Result {
 	res.Assumptions = []string{"the judges are dash 0.5.12 (/bin/sh) and bash 5.2 with -n; a program counts only when both accept it",
 		"words come from the stated pools; none is a ${VAR:@...@} loop expression (wkind plain), checked per program against the real tokenizer"}
 	return res
+}
+
+// c11CapUnknownRejects keeps every violation whose key is recorded in
+// known-findings.json and at most `max` others of the C11/reject family (the
+// smallest ones): one defect shows up under many error contexts.
+func c11CapUnknownRejects(ctx *Ctx, res *Result, max int) {
+	known := map[string]bool{}
+	if data, err := os.ReadFile(filepath.Join(ctx.Verif, "known-findings.json")); err == nil {
+		for _, m := range regexp.MustCompile(`"key":\s*"([^"]+)"`).FindAllStringSubmatch(string(data), -1) {
+			known[m[1]] = true
+		}
+	}
+	var keep, unknown []Violation
+	for _, v := range res.Violations {
+		if strings.HasPrefix(v.Key, "C11/reject/") && !known[v.Key] {
+			unknown = append(unknown, v)
+		} else {
+			keep = append(keep, v)
+		}
+	}
+	sort.SliceStable(unknown, func(i, j int) bool { return unknown[i].Size < unknown[j].Size })
+	if len(unknown) > max {
+		res.Count("unknown_reject_keys_not_reported", len(unknown)-max)
+		unknown = unknown[:max]
+	}
+	res.Violations = append(keep, unknown...)
 }
 
 func c11DiagKind(msg string) string {
